@@ -232,13 +232,14 @@ def run_timed(binp, d, cfgs=("ChannelTime.cfg", "ChannelTime_stranger.cfg")):
         for op in ops:
             pid = classify(op) or "C07"
             key = "%s:%s:timed/%s%s" % (pid, op, ev["pat"], "" if ev.get("post", "none") == "none" else "+" + ev["post"])
-            what = "%s false on real channels in timed scenario K=%d R=%d J=%d ticks, pattern %s, then %s: hellos=%d (model bound %d), sends failed %d of %d, dups %d; after total expiry: resumed sends failed %d of %d, payloads handed to a stranger key %d, accepted from it %d, RemoteKey changed %s" % (
+            what = "%s false on real channels in timed scenario K=%d R=%d J=%d ticks, pattern %s, then %s: hellos=%d (model bound %d), sends failed %d of %d, dups %d; after total expiry: sends that waited through the outage failed %d of %d, resumed sends failed %d of %d, payloads handed to a stranger key %d, accepted from it %d, RemoteKey changed %s" % (
                 op, ev["K"], ev["R"], ev["J"], ev["pat"], ev.get("post", "none"), ev["hellos"], ev["maxhellos"], ev["sendfail"], ev["sends"], ev["dups"],
-                ev.get("resume_fail", 0), ev.get("resume_sends", 0), ev.get("to_stranger", 0), ev.get("from_stranger", 0), ev.get("rk_changed", False))
+                ev.get("pending_fail", 0), ev.get("pending_sends", 0), ev.get("resume_fail", 0), ev.get("resume_sends", 0), ev.get("to_stranger", 0), ev.get("from_stranger", 0), ev.get("rk_changed", False))
             violations.append((pid, key, what, dict(timed_case=ev, operator=op)))
     evs = [json.loads(l) for l in lines]
     return dict(stats=dict(cases=len(cases), model_states=nstates, after_expiry=dict(
-                               stranger_cases=sum(1 for e in evs if e.get("post") == "stranger"), resume_cases=sum(1 for e in evs if e.get("post") == "resume"),
+                               stranger_cases=sum(1 for e in evs if e.get("post") == "stranger"), resume_cases=sum(1 for e in evs if e.get("post") == "resume"), pending_cases=sum(1 for e in evs if e.get("post") == "pending"),
+                               pending_sends=sum(e.get("pending_sends", 0) for e in evs), pending_max_ms=max([e.get("pending_ms", 0) for e in evs] + [0]),
                                resume_sends=sum(e.get("resume_sends", 0) for e in evs), stranger_sends_ok=sum(e.get("stranger_sent", 0) for e in evs)), max_stall_ms=max(e["stall_ms"] for e in evs),
                            sends=sum(e["sends"] for e in evs), replayed_old_ciphertexts=sum(e["replayed"] for e in evs)),
                 violations=violations)
